@@ -125,7 +125,7 @@ def run(ctx):
     probe.install()
     probe.reach([UnitDatabase.Convert, UnitDatabase.GetInfo])
     ctx.rule = (
-        "every ordered pair (u,v), u!=v, of units of one quantity type in each self-built database "
+        "u->u exact for float/int/list/tuple/ndarray/FractionValue on every unit; every ordered pair (u,v), u!=v, of units of one quantity type in each self-built database "
         "(posc, posc without categories, FillSimple) x values; a case is the pair; checked: identity exact, "
         "round trip and path independence within K=16 x running float error scale, (strict) monotonicity; "
         "thorough adds all ordered triples; a sample of pairs is asked again after the sweep (and after the same labels went through the 'Unknown' type) and must answer bit for bit like a fresh database"
@@ -175,6 +175,22 @@ def run(ctx):
                         for x in (xs[(hash((u, w)) + k) % len(xs)] for k in (0, 7, 19)):
                             P.check_value(qt, u, v, w, x)
                 P.check_monotone(qt, u, v, xs, ys)
+                # the (unit, exponent) overload with exponent 1 is the same conversion (negative amounts and offset
+                # units included): compared with the string form on a few values
+                if (aff[u].off != 0 or aff[v].off != 0) or idx % 7 == 0:
+                    for x in (xs[0], xs[1], xs[len(xs) // 2], xs[-1], -47.0, -1e-3):
+                        ctx.ev()
+                        try:
+                            a1 = db.Convert(qt, u, v, x)
+                            a2 = db.Convert(qt, [(u, 1)], [(v, 1)], x)
+                            a3 = db.Convert(qt, ((u, 1),), ((v, 1),), x)
+                        except Exception as e:
+                            ctx.violation("%s:%s:%s->%s:exponent-1-form-raised" % (kind, qt, u, v), {"error": repr(e)[:200], "x": x, "db": kind}, replay={"kind": kind, "qt": qt, "u": u, "v": v, "x": x})
+                            break
+                        tol = conv.tol_in(aff[v], conv.base_err(aff[u], x, aff[v]), a1, 16.0)
+                        if abs(a2 - a1) > tol or abs(a3 - a1) > tol:
+                            ctx.violation("%s:%s:%s->%s:exponent-1-form-differs" % (kind, qt, u, v), {"string_form": repr(a1), "list_form": repr(a2), "tuple_form": repr(a3), "x": x, "db": kind}, replay={"kind": kind, "qt": qt, "u": u, "v": v, "x": x})
+                            break
                 if idx < 3 and ctx.shard == 0:
                     ctx.sample({"db": kind, "qt": qt, "u": u, "v": v, "x": xs[-1], "y": ys[-1]})
             maxratio = max(maxratio, P.maxratio)
@@ -203,6 +219,34 @@ def run(ctx):
                     if repr(warm) != repr(cold):
                         ctx.violation("%s:%s:%s->%s:depends-on-history" % (kind, qt, u, v), {"after_the_sweep": repr(warm), "on_a_fresh_database": repr(cold), "x": x, "db": kind}, replay={"kind": kind, "qt": qt, "u": u, "v": v, "x": x})
                         break
+            # u -> u is exact for every kind of value (no arithmetic at all may touch it)
+            if ctx.shard == 0:
+                import numpy as np
+
+                try:
+                    from barril.basic.fraction import FractionValue
+                except Exception:
+                    FractionValue = None
+                probe_vals = [3.7, 1e5, -459.67, 0.1, 273.15, 1e-9, 7.0]
+                for u, a in aff.items():
+                    for label, val in (("ndarray", np.array(probe_vals)), ("int ndarray", np.array([1, -2, 30000])), ("list", list(probe_vals)), ("tuple", tuple(probe_vals)),
+                                       ("FractionValue", FractionValue(3, (1, 4)) if FractionValue else None), ("int", 3), ("float", 3.7)):  # fmt: skip
+                        if val is None:
+                            continue
+                        ctx.ev()
+                        try:
+                            got = db.Convert(a.qt, u, u, val)
+                            if label == "FractionValue":
+                                same = got == val and float(got) == 3.25
+                            elif label in ("ndarray", "int ndarray"):
+                                same = isinstance(got, np.ndarray) and got.dtype == val.dtype and np.array_equal(got, val)
+                            else:
+                                same = type(got) is type(val) and got == val
+                        except Exception as e:
+                            ctx.violation("%s:%s:%s:identity-raised:%s" % (kind, a.qt, u, label), {"error": repr(e)[:160], "db": kind})
+                            continue
+                        if not same:
+                            ctx.violation("%s:%s:%s:identity-not-exact:%s" % (kind, a.qt, u, label), {"given": repr(val)[:120], "got": repr(got)[:120], "db": kind}, replay={"kind": kind, "qt": a.qt, "u": u, "v": u, "x": 3.7})
             # slope sign of every unit (strictly increasing maps)
             if ctx.shard == 0:
                 for u, a in aff.items():
